@@ -98,7 +98,7 @@ class RecipeReplay:
         k = c["call"]
         self.counts["calls"] += 1
         try:
-            if auto_uses and k not in ("uses", "start_stage", "end_stage", "bake"):
+            if auto_uses and k not in ("uses", "uses_list", "start_stage", "end_stage", "bake"):
                 ops = {"transfer": [c.get("sn"), c.get("dn")], "create_solution": [c.get("solvent")],
                        "create_solution_from": [c.get("src")]}.get(k, [c.get("n")])
                 for n in ops:
@@ -108,6 +108,15 @@ class RecipeReplay:
             if k == "uses":
                 recipe.uses(self.pool[c["o"]])
                 ctx["from_pool"][self.objname[c["o"]]] = c["o"]
+            elif k == "uses_list":
+                # alternately as one list argument and as one positional argument followed by a tuple of the rest
+                objs = [self.pool[o] for o in c["os"]]
+                for o in c["os"]:
+                    ctx["from_pool"].setdefault(self.objname[o], o)
+                if len(salt) % 2:
+                    recipe.uses(objs)
+                else:
+                    recipe.uses(objs[0], tuple(objs[1:]))
             elif k == "create_container":
                 entries = [(inst.subs[e[0]], inst.quantity(rat(e[1]), "U" if model.is_enzyme(e[0]) else "mol", f"{salt}e{i}"))
                            for i, e in enumerate(c["entries"])]
@@ -239,8 +248,16 @@ class RecipeReplay:
             if out == "ok":
                 self.report("C16", "discipline_not_enforced", key, f"{call_txt} ({ev['cls']}) was accepted", ev)
                 return
+        elif want == "notRuntimeError":
+            # a stage call after a bake that failed part-way: the stage bookkeeping is not specified, the lock is
+            if out == "RuntimeError":
+                self.report("C16", "unlocked_recipe_raises_RuntimeError", key, f"{call_txt} after a bake that failed on an infeasible step raised RuntimeError: {exc}", ev)
+            return
         elif want == "ValueError":
-            return      # a value-level bake failure: judged by C08 / C03
+            # a value-level bake failure (judged by C08 / C03); the recipe has not been baked successfully, so it is not locked
+            if out == "ValueError" and recipe.locked:
+                self.report("C16", "locked_by_failed_bake", key, f"{call_txt} failed ({exc}) and left the recipe locked", ev)
+            return
         # the observable recipe state after the call
         if ev["cls"] == "step_infeasible":
             return      # a bake that failed on an infeasible step is terminal in the specification
@@ -250,7 +267,7 @@ class RecipeReplay:
             self.report("C16", "declared_set", key, f"{call_txt}: declared {list(recipe.results.keys())}, specified {ev['decl']}", ev)
         elif bool(recipe.locked) != ev["locked"]:
             self.report("C16", "locked_flag", key, f"{call_txt}: locked={recipe.locked}, specified {ev['locked']}", ev)
-        elif "cur" in ev and (recipe.current_stage != ev["cur"] or set(recipe.stages) - {"all"} != set(ev["stageNames"])):
+        elif "cur" in ev and not ev.get("dead") and (recipe.current_stage != ev["cur"] or set(recipe.stages) - {"all"} != set(ev["stageNames"])):
             self.report("C16", "stage_bookkeeping", key,
                         f"{call_txt}: open stage {recipe.current_stage!r}, closed stages {sorted(set(recipe.stages) - {'all'})}; specified {ev['cur']!r}, {sorted(ev['stageNames'])}", ev)
         if baked_before is not None:
@@ -268,7 +285,7 @@ class RecipeReplay:
     def mon_bake(self, ev, ctx, out, exc, pre_fps):
         recipe = ctx["recipe"]
         self.counts["bakes"] += 1
-        hist_steps = [h for h in ev["history"] if h["call"] not in ("uses", "start_stage", "end_stage", "bake")]
+        hist_steps = [h for h in ev["history"] if h["call"] not in ("uses", "uses_list", "start_stage", "end_stage", "bake")]
         key = {"op": "bake", "steps": "+".join(sorted({h["call"] for h in hist_steps})),
                "slice_fill": any(h["call"] == "fill_to" and h["r"] not in ("-", "plate", "all") for h in hist_steps),
                "renamed": any(h["call"] == "dilute" and h.get("rename", "-") != "-" for h in hist_steps)}
